@@ -97,7 +97,9 @@ pub fn from_unixtime_us(
     mut args: Args,
     _return_type: &TypeScheme,
 ) -> Result<Value, Box<RuntimeErrorKind>> {
-    let us = quantity_arg!(args).unsafe_value().to_f64() as i64;
+    // Round to the nearest microsecond: the argument usually is a whole number of microseconds that
+    // went through a unit conversion (`unix_s -> unix_µs`) and may be a hair below it.
+    let us = quantity_arg!(args).unsafe_value().to_f64().round() as i64;
 
     let dt = Timestamp::from_microsecond(us)
         .map_err(|_| RuntimeErrorKind::DateTimeOutOfRange)?
